@@ -166,6 +166,10 @@ void set_exact_fit(bool on) {
 void set_soft_budget(bool on) {
     if (on) g_cfg.soft_budget = true;
 }
+static bool g_stall_abandon = false;
+void set_stall_abandon(bool on) {
+    if (on) g_stall_abandon = true;
+}
 int current_task() {
     return g_cur ? g_cur->id : 0;
 }
@@ -803,6 +807,7 @@ void run_begin(const RunCfg &cfg) {
     g_blocks.clear();
     g_free.clear();
     g_cfg = cfg;
+    g_stall_abandon = false;
     g_heap_rng.reseed(cfg.heap_seed);
     g_live_lib = g_live_all = g_peak_live = g_allocs = g_frees = 0;
     g_memrec_add = g_memrec_remove = 0;
@@ -1182,8 +1187,8 @@ static void trap_handler(int signo, siginfo_t *si, void *uctx) {
             alarm(20);
             return;
         }
-        if (g_cfg.soft_budget) {
-            // the world declared this input legitimately astronomical (soft budget): abandoned, not reported
+        if (g_cfg.soft_budget || g_stall_abandon) {
+            // the world declared this input legitimately astronomical: abandoned, not reported
             puts_(p, "ABANDON run=");
             decu(p, g_run_index);
             puts_(p, " seed=");
